@@ -38,6 +38,8 @@ func pairMutate(v PairVariant, second bool) (func(*RunCfg), func(*RunCfg) map[st
 			c.Calm = false
 			c.FaultP = 0.15
 			c.FaultOnlyGroup = x.Name
+			// faults that take virtual time legitimately shift the later groups' scan instants
+			c.Faults[FLatency], c.Faults[FThrottle] = false, false
 		}
 	}
 	salt := func(c *RunCfg) map[string]string {
